@@ -41,6 +41,33 @@ static int op_pad_big(int argc, char **argv, FILE *o) {
     free(b); return 0;
 }
 #include <sys/mman.h>
+/* pad.huge <n> <bs> <fill> <cap-delta>: as pad.big for buffer lengths of 2^32 and more without the memory: the whole capacity is reserved PROT_NONE and only the
+   pages sodium_pad / sodium_unpad may touch (the final block, [padded - bs, cap)) are made accessible; a touch anywhere else faults (observed in a child). */
+typedef struct { uint64_t n, bs, fill, delta; } huge_t;
+static void pad_huge_run(void *a_, FILE *o) {
+    huge_t *a = (huge_t *) a_; size_t n = (size_t) a->n, bs = (size_t) a->bs, padded = n + (bs - n % bs), cap = padded - 1 + (size_t) a->delta, pl = 0, ul = 0, i, nz = 0, lo, from;
+    unsigned char *base, *b; int rc, ur, dataok = 1; size_t tot = (cap + 1 + 8191) & ~(size_t) 4095;
+    base = (unsigned char *) mmap(NULL, tot, PROT_NONE, MAP_PRIVATE | MAP_ANONYMOUS | MAP_NORESERVE, -1, 0);
+    if (base == MAP_FAILED) { fputs("nomap", o); return; }
+    b = base; lo = (padded - bs) & ~(size_t) 4095;
+    if (mprotect(b + lo, tot - lo, PROT_READ | PROT_WRITE) != 0) { fputs("nomap", o); return; }
+    from = lo;
+    for (i = from; i < n; i++) b[i] = (unsigned char) (1 + i % 251);
+    memset(b + (n > from ? n : from), (int) (a->fill & 0xff), cap - (n > from ? n : from));
+    rc = sodium_pad(&pl, b, n, bs, cap);
+    if (rc != 0) { fprintf(o, "%d", rc); return; }
+    for (i = from; i < n; i++) if (b[i] != (unsigned char) (1 + i % 251)) dataok = 0;
+    for (i = n + 1; i < pl && i < cap; i++) if (b[i]) nz++;
+    ur = sodium_unpad(&ul, b, pl, bs);
+    fprintf(o, "0 %zu marker=%u tailnz=%zu dataok=%d unpad=%d,%zu", pl, (unsigned) b[n], nz, dataok, ur, ul);
+}
+static int op_pad_huge(int argc, char **argv, FILE *o) {
+    huge_t a; char out[256]; int r;
+    if (argc != 4 || hx_u64(argv[0], &a.n) || hx_u64(argv[1], &a.bs) || hx_u64(argv[2], &a.fill) || hx_u64(argv[3], &a.delta) || a.bs == 0 || a.n >= (1ULL << 40) || a.bs > (1ULL << 22)) return -1;
+    r = hx_in_child(pad_huge_run, &a, out, sizeof out);
+    if (r == 0) fputs(out, o); else fprintf(o, "CHILD-DIED(%d) %s", r, out);
+    return 0;
+}
 /* the buffer is placed so that buf[-1] lies in a PROT_NONE page: a read before the buffer faults */
 static unsigned char *guarded_copy(const unsigned char *p, size_t n) {
     static __thread unsigned char *region; static const size_t cap = 1u << 20;   /* per thread: the threaded workload (C19) runs ops concurrently */
@@ -64,4 +91,4 @@ static int op_unpad(int argc, char **argv, FILE *o) {
     hx_free(&b);
     return 0;
 }
-const hx_op ops_c16[] = { {"pad", op_pad}, {"pad.big", op_pad_big}, {"unpad", op_unpad}, {NULL, NULL} };
+const hx_op ops_c16[] = { {"pad", op_pad}, {"pad.big", op_pad_big}, {"pad.huge", op_pad_huge}, {"unpad", op_unpad}, {NULL, NULL} };
